@@ -709,6 +709,12 @@ func assertMerge(vm *VM, t Term, merge func([]clause, []clause) []clause, env *E
 		vm.procedures[pi] = p
 	}
 
+	// The clause is stored as a copy. Bindings made later to the variables of t don't reach it.
+	t, err = renamedCopy(t, nil, env)
+	if err != nil {
+		return err
+	}
+
 	added, err := compile(t, env)
 	if err != nil {
 		return err
